@@ -1235,28 +1235,47 @@ def transform(fn, proceed, to_instrument=True, set_conformer=True):
     except ImportError:  # pragma: no cover
         code_registry = None
 
-    current = {}
-    if code_registry is not None:
-        # Functions defined inside fn may be probed right now, in which case
-        # the registry maps their path to their instrumented code. Remember
-        # these mappings: the exec and the assimilate below reset them.
-        def _nested(code):
-            yield code
-            for ct in code.co_consts:
-                if isinstance(ct, types.CodeType):
-                    yield from _nested(ct)
+    # codefind's exec audit hook registers every code object compiled by the
+    # exec below under <file>/<name>/... as if it were defined at module
+    # level. That would remap the reference of this function (and of anything
+    # defined inside it, which may be probed right now) to throw-away code
+    # and, for a method or a nested function, clobber the reference of a
+    # module-level function that has the same name. Remember what the
+    # registry says for these paths and put it back afterwards.
+    def _hook_paths(code, path=()):
+        if code.co_name == "<module>":
+            name = code.co_filename
+        elif code.co_name.startswith("<"):
+            return
+        else:
+            name = code.co_name
+        path = (*path, name)
+        yield code, (*path, code.co_firstlineno)
+        yield code, (*path, None)
+        for ct in code.co_consts:
+            if isinstance(ct, types.CodeType):
+                yield from _hook_paths(ct, path)
 
-        for code in _nested(fn.__code__):
-            for path in code_registry.backcodes.get(code, ()):
-                if path in code_registry.currcodes:
-                    current[path] = code_registry.currcodes[path]
+    touched = []
+    before = {}
+    if code_registry is not None:
+        touched = list(_hook_paths(new_fn))
+        for _, path in touched:
+            if path in code_registry.currcodes:
+                before[path] = code_registry.currcodes[path]
 
     exec(new_fn, glb, glb)
 
     if code_registry is not None:
-        co = fn.__code__
-        code_registry.assimilate(co, (co.co_filename,))
-        code_registry.currcodes.update(current)
+        for code, path in touched:
+            if path in before:
+                code_registry.currcodes[path] = before[path]
+            else:
+                code_registry.currcodes.pop(path, None)
+            # (code objects are compared by value: a nested function that
+            # was not rewritten is "the same" code as the original one)
+            if before.get(path) != code and code in code_registry.backcodes:
+                code_registry.backcodes[code].discard(path)
 
     # Get the new function (populated with exec)
     if "#WRAP" in glb:
